@@ -200,6 +200,19 @@ fn check_fileset(ctx: &Ctx, kind: &str, files: &[(String, String)], rng: &mut Rn
                                         );
                                         break;
                                     }
+                                    // the three lines of an excerpt share one gutter: a marker is only
+                                    // under its columns if the bars stand in one screen column
+                                    if let Some((a, b, c)) = it.bars {
+                                        if !(a == b && b == c) {
+                                            ok = false;
+                                            acc.violation(
+                                                format!("C18|caret|gutter-misaligned|{}", if (w.line + 1).to_string().len() != w.line.to_string().len() { "line-number-gains-a-digit" } else { "other" }),
+                                                format!("the `|` of the excerpt for line {} stands in screen columns {a}, {b}, {c}: the marker is not under the columns it means", w.line + 1),
+                                                replay.clone(),
+                                            );
+                                            break;
+                                        }
+                                    }
                                     acc.count("excerpts_checked", 1);
                                 }
                             }
